@@ -18,6 +18,10 @@ type Chooser struct {
 }
 
 // Choose returns a value in [0,n). n must be >= 1. Beyond the prefix the default 0 is taken.
+// (norace: under the vsched engine it is called from several goroutines whose hand-offs are
+// deliberately hidden from the race detector.)
+//
+//go:norace
 func (c *Chooser) Choose(n int) int {
 	if n < 1 {
 		panic("vk.Chooser: Choose(n<1)")
@@ -151,6 +155,8 @@ func BFS(numOps, maxDepth int, run func(hist []int) (key string, ok bool), stop 
 
 // ChooseFree is Choose whose alternatives never count against the deviation bound (used for
 // forced choices, e.g. which thread to run when the current one blocked).
+//
+//go:norace
 func (c *Chooser) ChooseFree(n int) int {
 	if n < 1 {
 		panic("vk.Chooser: ChooseFree(n<1)")
